@@ -10,6 +10,24 @@ PBT = "Hypothesis property-based testing against an independent reference model"
 
 CHECKS = [
     {
+        "id": "C11",
+        "technique": "Hypothesis-generated operation histories (stateful, op-list form) over a scripted socket with a history invariant; reader(socket) vs reader(file) differential",
+        "text": "Generated histories of peer sends / timeouts / OS errors / close interleaved with read(n) and readline on SocketWrapper at seven bufsizes; after every step delivered ++ buffered must equal everything recv() handed out, read sizes and readline termination must obey the contract; RTCMReader over a socket with generated segmentation must return what RTCMReader over BytesIO returns.",
+        "note": "Scripted sockets stand for the kernel; real socket options are represented only by TimeoutError / OSError from recv().",
+    },
+    {
+        "id": "C12",
+        "technique": "exhaustive enumeration of recv partitions for short chunked bodies + Hypothesis-generated bodies / partitions / bufsizes, judged by an independent RFC 9112 chunk decoder",
+        "text": "Generated well-formed chunked bodies (plain, gzip, zlib, raw deflate per chunk) are delivered through every composition of the encoded stream for n <= 15, every 1- and 2-cut partition for n <= 120 and generated partitions beyond; the bytes drained from SocketWrapper.read must equal the reference decoding of the unsegmented stream and read must not raise.",
+        "note": "Chunk extensions / trailers are not generated.",
+    },
+    {
+        "id": "C13",
+        "technique": "Hypothesis-generated parse histories (op lists) with deep table digests + generated deterministic thread schedules (harness-owned line-level scheduler) + free-running thread stress",
+        "text": "Generated histories of valid / failing / mixed-type parses through four entry points and a long-lived reader: each result must equal the independent interpreter's expectation and the first parse of the same bytes, and the definition / lookup tables must keep their import-time digest after every step; 2-4 parse jobs are interleaved at source-line granularity following a generated choice list and must give the sequential results; an 8-thread free-running stress with a 1 microsecond switch interval backs this up.",
+        "note": "Interleavings finer than a source line and GIL-free parallelism are not explored.",
+    },
+    {
         "id": "C10",
         "technique": "complete structural sweep of the definition tables + PBT with pinned standard length formulas (black-box bit-exact length probe) + metamorphic sibling relations on generated block bits",
         "text": "Every identity of the three tables and of a pinned roster is walked by the independent interpreter and decoded by the parser (complete); for generated repeat counts the bits consumed are compared bit-exactly with pinned RTCM 10403.3 / IGS SSR v1 formulas; sibling families (orbit+clock vs combined for GPS, GLONASS and six IGS constellations, extended vs basic observables, MSM per level across seven constellations, IGS sub-types across constellations) must decode identical bits to identical values and names.",
